@@ -942,6 +942,37 @@ func (c *EvalCtx) call(e *ECall) Value {
 			}
 		}
 		return c.fail("upd: unsupported map")
+	case "isZero":
+		return c.e.isZeroValue(c.st, c.eval(arg(0)))
+	case "litEq":
+		s, ok := c.eval(arg(0)).(StrV)
+		t, ok2 := c.eval(arg(1)).(StrV)
+		if !ok || !ok2 {
+			return c.fail("litEq: not strings")
+		}
+		return Bool(s.Lit != nil && t.Lit != nil && *s.Lit == *t.Lit)
+	case "isLiteral":
+		s, ok := c.eval(arg(0)).(StrV)
+		if !ok {
+			return c.fail("isLiteral: not a string")
+		}
+		return Bool(s.Lit != nil)
+	case "anchored":
+		// anchored(p): p is literally "^(?:" ++ x ++ ")$" (or "\\A(?:" ++ x ++ ")\\z") — the canonical
+		// whole-string anchoring of an arbitrary pattern x
+		s, ok := c.eval(arg(0)).(StrV)
+		if !ok {
+			return c.fail("anchored: not a string")
+		}
+		if len(s.Cat) >= 3 {
+			first, last := s.Cat[0], s.Cat[len(s.Cat)-1]
+			if first.Lit != nil && last.Lit != nil {
+				if (*first.Lit == "^(?:" && *last.Lit == ")$") || (*first.Lit == "\\A(?:" && *last.Lit == ")\\z") {
+					return TTrue
+				}
+			}
+		}
+		return TFalse
 	case "mapNil":
 		m, ok := c.eval(arg(0)).(MapV)
 		if !ok {
@@ -1353,4 +1384,44 @@ func (c *EvalCtx) assume(x Expr) {
 	if *c.nerr == before {
 		c.st.assume(t)
 	}
+}
+
+// isZeroValue: the value is the zero value of its type (structurally).
+func (e *Engine) isZeroValue(st *State, v Value) *Term {
+	switch x := v.(type) {
+	case *Term:
+		if x.Sort == SBool {
+			return Not(x)
+		}
+		if x.Sort == SInt {
+			return Eq(x, Num(0))
+		}
+		return TFalse
+	case StrV:
+		return Eq(x.Len, Num(0))
+	case SliceV:
+		return x.Nil
+	case PtrV:
+		return x.Nil
+	case MapV:
+		return x.Nil
+	case IfaceV:
+		return e.ifaceNil(x)
+	case FuncV:
+		if x.Nil != nil {
+			return x.Nil
+		}
+		return TFalse
+	case StructV:
+		var cs []*Term
+		for _, f := range x.F {
+			cs = append(cs, e.isZeroValue(st, f))
+		}
+		return And(cs...)
+	case OpaqueV:
+		return App("tq_iszero", SBool, x.Ref)
+	case ArrV:
+		return TFalse
+	}
+	return TFalse
 }
